@@ -90,6 +90,34 @@ and the peer's Finished (epoch 1, sequence number 0) went through it -/
 def afterHandshake (p : Params) (cfg : Int) : State :=
   { cfg := cfg, readEpoch := 1, win := (check p (newFromConfig p cfg) 0).1, err := none }
 
+/-! The handshake, as far as the replay window is concerned.  `Server` / `Client` create the
+connection — and its epoch-0 window — from the Config they are given.  On a server whose Config
+has `GetConfigForClient`, `selectConfigForClient` replaces `c.config` by the Config the callback
+returned, after the cookie-verified ClientHello.  Every epoch change (the peer's ChangeCipherSpec
+in `readChangeCipherSpec` / `readRecordOrCCS`, the newer-epoch branches of `readRecordOrCCS` and
+`ReadFrom`) reads `c.config.ReplayWindow` *then* and builds a new window from it.  The peer's
+Finished (epoch 1, sequence number 0) goes through the new window. -/
+
+/-- `Server(conn, addr, config)` / `Client(…)`: epoch 0, window from the Config given -/
+def atCreation (p : Params) (created : Int) : State :=
+  { cfg := created, readEpoch := 0, win := newFromConfig p created, err := none }
+
+/-- `selectConfigForClient`: `c.config = configForClient` when the callback returned one -/
+def installConfig (st : State) : Option Int → State
+  | some c => { st with cfg := c }
+  | none => st
+
+/-- the peer's ChangeCipherSpec: `c.readEpoch++`, a new window from `c.config` as it is now -/
+def onPeerCCS (p : Params) (st : State) : State :=
+  { st with readEpoch := st.readEpoch + 1, win := newFromConfig p st.cfg }
+
+/-- state right after a handshake on a connection created with `Config.ReplayWindow = created`
+during which `GetConfigForClient` installed a Config with `ReplayWindow = c` (`installed = some c`)
+or no other Config (`none`) -/
+def afterHandshakeGov (p : Params) (created : Int) (installed : Option Int) : State :=
+  let st := onPeerCCS p (installConfig (atCreation p created) installed)
+  { st with win := (check p st.win 0).1 }
+
 /-- the common part after a successful `decrypt`: old epoch ⇒ drop; newer epoch ⇒ switch and
 start a new window; then `replayWindow.check` -/
 def admitRec (p : Params) (st : State) (r : Rec) : State × Bool :=
